@@ -126,3 +126,23 @@ package abci
 //@   loop 2 invariant forall j int :: 0 <= j && j < idx() ==> mux.appsByLexOrder[j] == mux.appsByName[appOrder[j]]
 //@   ensures-local ordDet(appOrder) && len(mux.appsByLexOrder) == len(appOrder) && (forall j int :: 0 <= j && j < len(appOrder) ==> mux.appsByLexOrder[j] == mux.appsByName[appOrder[j]])
 //@   note the dispatch list is the image of the SORTED name list under appsByName: its order is a function of the set of registered applications
+
+// ---- block metadata (C01): the state root and the provable-events root bound into the block are re-checked by every replica ----
+
+//@ ghost var GHashEqTrue int
+//@ ghost var GBytesEqTrue int
+
+//@ func abciMux.validateSystemTxs
+//@   props C01
+//@   requires mux != nil && mux.state != nil && mux.state.proposal != nil && mux.state.blockCtx != nil
+//@   loop 1 invariant hasBlockMetadata ==> GHashEqTrue > old(GHashEqTrue) && GBytesEqTrue > old(GBytesEqTrue)
+//@   loop 1 invariant GHashEqTrue >= old(GHashEqTrue) && GBytesEqTrue >= old(GBytesEqTrue)
+//@   ensures-local err == nil && len(old(mux.state.proposal.hash)) > 0 ==> hasBlockMetadata && GHashEqTrue > old(GHashEqTrue) && GBytesEqTrue > old(GBytesEqTrue)
+//@   note outside the proposal phase, validation succeeds only if the block carries block metadata and a state-root comparison and an events-root comparison both came out equal (counted: successful hash.Equal / bytes.Equal results); which operands are compared is not stated
+
+//@ func abciMux.processSystemTx
+//@   props C01
+//@   requires mux != nil && mux.state != nil && mux.state.proposal != nil && ctx != nil && tx != nil
+//@   ensures err == nil ==> old(tx.Nonce) == 0 && old(tx.Fee) == nil && len(old(mux.state.proposal.hash)) > 0 && old(ctx.mode) == api.ContextDeliverTx
+//@   ensures err == nil ==> GBytesEqTrue > old(GBytesEqTrue)
+//@   note a system transaction is accepted only in block delivery (never while the proposal is being built), with zero nonce and no fee, and only after the signer-address comparison with the block proposer came out equal
